@@ -241,6 +241,19 @@ package slice
 // spans of lhs and rhs at those offsets, an Emit covers equal elements, no edit is empty, and the offsets after the last
 // edit are the lengths of the inputs. Index safety of the two scan loops and of the run extension follows from the
 // witnesses being strictly ascending (the k-th remaining witness is at least k positions ahead), not from optimality.
+// Optimality of LCSFunc. The ghost table tab[j][x] is the n of the node stored for row j (a prefix of bs of length j)
+// and column x (a prefix of as of length x). tabUpTo states, for every cell filled so far (rows below J, and row J
+// left of I), that the cell is not negative, column 0 is 0, a cell is not below its left and upper neighbours and at
+// most one above them, and a cell whose two elements match is above its upper-left neighbour. These are exactly
+// the hypotheses of the lemma function govcLCSBound (at the end of this file), which derives by induction that no
+// common subsequence is longer than tab[len(bs)][len(as)], the length LCSFunc returns.
+//@ pred cellDone(j int, x int, J int, I int) := j < J || (j == J && x < I)
+//@ pred tabUpTo(tab imap[imap[int]], X Slice, Y Slice, eq func(T, T) bool, J int, I int) := (forall j int, x int :: {tab[j][x]} 0 <= j && j <= len(Y) && 0 <= x && x <= len(X) && cellDone(j, x, J, I) ==> tab[j][x] >= 0 && (x == 0 ==> tab[j][x] == 0))
+//@+     && (forall j int, x int, y int :: {tab[j][x], tab[j][y]} 0 <= j && j <= len(Y) && 0 <= x && y == x + 1 && y <= len(X) && cellDone(j, y, J, I) ==> tab[j][x] <= tab[j][y] && tab[j][y] <= tab[j][x] + 1)
+//@+     && (forall j int, k int, x int :: {tab[j][x], tab[k][x]} 0 <= j && k == j + 1 && k <= len(Y) && 0 <= x && x <= len(X) && cellDone(k, x, J, I) ==> tab[j][x] <= tab[k][x] && tab[k][x] <= tab[j][x] + 1)
+//@+     && (forall j int, k int, x int, y int :: {tab[j][x], tab[k][y]} 0 <= j && k == j + 1 && k <= len(Y) && 0 <= x && y == x + 1 && y <= len(X) && cellDone(k, y, J, I) && eqv(eq, X[x], Y[j]) ==> tab[k][y] >= tab[j][x] + 1)
+//@ pred tabOK(tab imap[imap[int]], X Slice, Y Slice, eq func(T, T) bool) := tabUpTo(tab, X, Y, eq, len(Y) + 1, 0)
+//@
 //@ byref seq
 //@ ghost field seq.gj int
 //@
@@ -251,6 +264,20 @@ package slice
 //@   ensures [C11,C12,C13] ascending: forall a int, b int :: {wa[a], wa[b]} {wb[a], wb[b]} 0 <= a && a <= b && b < len(result) ==> wa[b] - wa[a] >= b - a && wb[b] - wb[a] >= b - a
 //@   ensures [C11,C12,C13] inputs: unchanged(elems(as)) && unchanged(elems(bs)) && (len(result) > 0 ==> fresh(result))
 //@   ghostret nodes set[ref], u imap[int], v imap[int]
+//@   ghostret tab imap[imap[int]], zrow imap[int]
+//@   ensures [C12] optimal: len(as) > 0 && len(bs) > 0 ==> (len(bs) >= len(as) ==> tabOK(tab, as, bs, eq) && len(result) == tab[len(bs)][len(as)]) && (len(bs) < len(as) ==> tabOK(tab, bs, as, eq) && len(result) == tab[len(as)][len(bs)])
+//@   at after "var zero seq": ghost zrow = lambda k int :: 0
+//@   at after "var zero seq": ghost tab[0] = zrow
+//@   at loop 2 head: ghost tab[j] = upd(tab[j], 0, 0)
+//@   at after "c[i] = &seq{i - 1, p[i-1].n + 1, p[i-1]}": ghost tab[j] = upd(tab[j], i, c[i].n)
+//@   at after "c[i] = c[i-1]": ghost tab[j] = upd(tab[j], i, c[i].n)
+//@   at after "c[i] = p[i]": ghost tab[j] = upd(tab[j], i, c[i].n)
+//@   loop 1: invariant [C12] row0: forall x int :: {tab[0][x]} tab[0][x] == 0
+//@   loop 2: invariant [C12] table: tabUpTo(tab, as, bs, eq, j, 0)
+//@   loop 2: invariant [C12] lastrow: forall x int :: {c[x]} 0 <= x && x <= len(as) ==> c[x].n == tab[j - 1][x]
+//@   loop 3: invariant [C12] table: tabUpTo(tab, as, bs, eq, j, i)
+//@   loop 3: invariant [C12] prevrow: forall x int :: {p[x]} 0 <= x && x <= len(as) ==> p[x].n == tab[j - 1][x]
+//@   loop 3: invariant [C12] currow: forall x int :: {c[x]} 0 <= x && x < i ==> c[x].n == tab[j][x]
 //@   at after "var zero seq": ghost nodes = setadd(emptyset(nodes), zero)
 //@   at after "c[i] = &seq{i - 1, p[i-1].n + 1, p[i-1]}": ghost c[i].gj = j - 1
 //@   at after "c[i] = &seq{i - 1, p[i-1].n + 1, p[i-1]}": ghost nodes = setadd(nodes, c[i])
@@ -417,6 +444,35 @@ package slice
 //@   at exit: ghost wa = LCSFunc_wa
 //@   at exit: ghost wb = LCSFunc_wb
 //@
+// govcTabMono and govcLCSBound are lemma functions: ordinary Go, compiled only under the build tag, whose loops are
+// the inductions. For ANY table that satisfies tabOK — the very predicate LCSFunc proves for its ghost table —
+// govcTabMono derives that the table is monotone over arbitrary distances, and govcLCSBound that every common
+// subsequence (positions wx into xs and wy into ys, both strictly ascending, elements pairwise equivalent) is at most
+// tab[len(ys)][len(xs)] long: the k-th matched pair lies at a cell worth at least k. With LCSFunc's postcondition
+// `optimal` (its result is a common subsequence of exactly that length) no common subsequence is longer than the
+// result.
+//@ pred tabShape(tab [][]int, xs []T, ys []T) := len(tab) == len(ys) + 1 && forall j int :: {tab[j]} 0 <= j && j < len(tab) ==> len(tab[j]) == len(xs) + 1
+//@
+//@ func govcTabMono
+//@   role eq eqv
+//@   requires [C12] shape: tabShape(tab, xs, ys) && 0 <= j1 && j1 <= j2 && j2 <= len(ys) && 0 <= x1 && x1 <= x2 && x2 <= len(xs)
+//@   requires [C12] table: tabOK(tab, xs, ys, eq)
+//@   ensures  [C12] mono: tab[j1][x1] <= tab[j2][x2]
+//@   loop 1: invariant [C12] down: j1 <= j && j <= j2 && tab[j1][x1] <= tab[j][x1]
+//@   loop 1: decreases j2 - j
+//@   loop 2: invariant [C12] right: x1 <= x && x <= x2 && tab[j1][x1] <= tab[j2][x]
+//@   loop 2: decreases x2 - x
+//@
+//@ func govcLCSBound
+//@   role eq eqv
+//@   requires [C12] shape: tabShape(tab, xs, ys)
+//@   requires [C12] table: tabOK(tab, xs, ys, eq)
+//@   requires [C12] common: len(wx) == len(wy) && forall k int :: {wx[k]} {wy[k]} 0 <= k && k < len(wx) ==> 0 <= wx[k] && wx[k] < len(xs) && 0 <= wy[k] && wy[k] < len(ys) && eqv(eq, xs[wx[k]], ys[wy[k]])
+//@   requires [C12] ascending: forall a int, b int :: {wx[a], wx[b]} {wy[a], wy[b]} 0 <= a && b == a + 1 && b < len(wx) ==> wx[a] < wx[b] && wy[a] < wy[b]
+//@   ensures  [C12] bound: len(wx) <= tab[len(ys)][len(xs)]
+//@   loop 1: invariant [C12] step: 0 <= k && k <= len(wx) && (k > 0 ==> tab[wy[k - 1] + 1][wx[k - 1] + 1] >= k)
+//@   loop 1: decreases len(wx) - k
+//@
 // govcChainBound is a lemma function: for ANY assignment cl of lengths to positions that grows along every
 // admissible step (position j before x with vs[j] not above vs[x] has cl[j] < cl[x]) and is at least 1, any chain s
 // (ascending positions, values not descending) is at most as long as cl at its last position. The loop is the
@@ -433,5 +489,23 @@ package slice
 
 func govcChainBound[T any](vs []T, cmp func(a, b T) int, cl []int, s []int, strict bool) {
 	for k := 1; k < len(s); k++ {
+	}
+}
+
+func govcTabMono[T any](xs, ys []T, eq func(a, b T) bool, tab [][]int, j1, x1, j2, x2 int) {
+	for j := j1; j < j2; j++ {
+	}
+	for x := x1; x < x2; x++ {
+	}
+}
+
+func govcLCSBound[T any](xs, ys []T, eq func(a, b T) bool, tab [][]int, wx, wy []int) {
+	for k := 0; k < len(wx); k++ {
+		if k > 0 {
+			govcTabMono(xs, ys, eq, tab, wy[k-1]+1, wx[k-1]+1, wy[k], wx[k])
+		}
+	}
+	if len(wx) > 0 {
+		govcTabMono(xs, ys, eq, tab, wy[len(wx)-1]+1, wx[len(wx)-1]+1, len(ys), len(xs))
 	}
 }
